@@ -4,6 +4,10 @@ import re
 T = "RsslVerif.Thm.C02."
 TS = "RsslVerif.Thm.C02Sem."
 TV = "RsslVerif.Thm.C02Vec."
+TD = "RsslVerif.Thm.C02Dup."
+DUP_THEOREMS = ["dup_sites_guarded", "guard_rows_are_ir_constructors", "repeatable_operand_is_pure_of_sound", "repeatable_operand_is_pure",
+                "struct_cast_meaning_kept", "struct_cast_refuses_iff", "wf_toD", "repeatable_operand_is_pure_ir_of_sound",
+                "repeatable_operand_is_pure_ir", "index_blind_test_repeats_effect"]
 VEC_THEOREMS = ["msl_exporter_vec_shape_as_modelled", "msl_swizzle_letters_are_identity", "msl_vector_type_names_roundtrip",
                 "vec1_is_named_as_scalar", "vec_shape_sound", "gen_sem_msl_vec_expr", "gen_sem_msl_vec_assign", "msl_vector_op_literal_in_concrete_type",
                 "literal_vector_cast_panics_msl",
@@ -21,6 +25,9 @@ CLASSES = ["S@plain", "G@array", "S@struct", "E@cbuffer", "Eo@texture", "E@texar
 def nontrivial(req, obs):
     # at least two calls between generated functions and one function that receives an implicit parameter
     f = req.split("\t")
+    if f[0] == "C02.dup":
+        # the module contains a cast to a struct and the exporter decided about it
+        return len(f) > 2 and f[2] != "-" and obs.startswith(("casts ", "diagnostic "))
     if f[0] == "C02.vex":
         return obs.startswith("vast ") and "(" in obs[5:40]
     if f[0] == "C02.vfn":
@@ -36,7 +43,7 @@ def nontrivial(req, obs):
 
 
 def finding_key(req, obs, detail):
-    if req.startswith(("C02.gen\t", "C02.vfn\t", "C02.vex\t")) and not obs and not detail:
+    if req.startswith(("C02.gen\t", "C02.vfn\t", "C02.vex\t", "C02.dup\t")) and not obs and not detail:
         # probe of vlib.shrink: failures of the semantic stream are keyed by their input, so a smaller failing input is welcome
         return req
     d = (detail or "")[5:]
@@ -148,6 +155,22 @@ def search(ctx):
         ("struct S { float3 a; int2 b; };\nint f(S s, int k) { s.b.y = k; return s.b.y + (int)s.a.z; }", "S(V(f:3f800000 f:40000000 f:40400000) V(i:00000001 i:00000002)),i:00000009"),
     ]:
         out.append("C02.vfn\t%s\tf\t%s\t-\t-" % (src, args))
+    # operand repetition: struct casts (1 / 4 / 7 elements) from every operand shape, with and without an effect in the
+    # operand or in an index below it; then an effect in each operand position the exporter writes once today
+    pre = ("struct I2 { int p; int q; };\\nstatic int gk = 3;\\nstatic int gcount = 0;\\n"
+           "int next(int n) { gcount++; return gcount % n; }\\nint bump(int d) { gk = gk + d; return gk; }\\n")
+    operands = ["x", "gk", "0", "arr[i & 3]", "p.q", "v.y", "(x + 1)", "parr[i & 1].p", "arr[(i++) & 3]", "arr[next(4)]", "parr[next(2)].q",
+                "varr[(i++) & 1].y", "x++", "bump(x)", "(x = x + 1)", "(b ? x++ : x)", "(i++, x)", "arr[(i = x) & 3]"]
+    shapes = ["struct S { int a; };", "struct S { int a; int b; int c[2]; };", "struct S { I2 a; I2 b[2]; int c; };", "struct S { int a; int3 w; };"]
+    for sh in shapes:
+        for e in operands:
+            out.append("C02.vfn\t%s%s\\nS f(int x, int arr[4], inout int i, I2 p, I2 parr[2], int3 v, int3 varr[2], bool b) { S s = (S)%s; return s; }\t-\t\t-\t-"
+                       % (pre, sh, e))
+    for st in ["r = (int3)(x++);", "r = int3(x++, x, bump(x));", "r = (x++).xxx;", "arr[(i++) & 3] += x; r.x = arr[0] + arr[1] + arr[2] + arr[3];",
+               "arr[next(4)] *= 3; r.x = arr[0] + arr[1] + arr[2] + arr[3];", "varr[(i++) & 1].zx = r.xy; r = varr[0] + varr[1];",
+               "arr[next(4)]++; r.x = arr[0] + arr[1] + arr[2] + arr[3];", "r.y = (i++ > 0) ? x : bump(x);", "r = max(r, x++) + min(bump(x), r);",
+               "r = select(bool3(b, !b, b), r + (int3)(x++), (int3)bump(x));", "r[(i++) & 1] += bump(x);"]:
+        out.append("C02.vfn\t%sint3 f(int x, int arr[4], inout int i, int3 v, int3 varr[2], bool b) { int3 r = v; %s return r + x + i; }\t-\t\t-\t-" % (pre, st))
     return out
 
 
@@ -184,8 +207,8 @@ def custom_vec(ctx):
 
 SPEC = {
     "id": "C02",
-    "gens": ["UsageTables", "MslGenTables", "MslVecTables"],
-    "lean_modules": ["RsslVerif.Thm.C02", "RsslVerif.Thm.C02Sem", "RsslVerif.Thm.C02Vec"],
+    "gens": ["UsageTables", "MslGenTables", "MslVecTables", "MslDupSites"],
+    "lean_modules": ["RsslVerif.Thm.C02", "RsslVerif.Thm.C02Sem", "RsslVerif.Thm.C02Vec", "RsslVerif.Thm.C02Dup"],
     "theorems": [T + n for n in [
         "tables_as_modelled", "all_positions_descended", "implicit_names_agree",
         "recurse_no_panic", "recurse_terminates", "measure_bounded_and_increasing", "close_is_reachability",
@@ -193,7 +216,7 @@ SPEC = {
         "requiredP_order_independent", "required_monotone", "args_align", "args_unchanged_without_implicit", "args_aligned_with_defaults",
         "threaded_exactly_partial", "calculateLocal_wf", "closeProgram_ok", "threaded_exactly_program_partial",
         "mentions_calculateLocal", "threaded_exactly",
-        "default_arguments_analysed", "global_initialisers_analysed"]] + [TS + n for n in SEM_THEOREMS] + [TV + n for n in VEC_THEOREMS],
+        "default_arguments_analysed", "global_initialisers_analysed"]] + [TS + n for n in SEM_THEOREMS] + [TV + n for n in VEC_THEOREMS] + [TD + n for n in DUP_THEOREMS],
     "harness": "c02",
     "nontrivial": nontrivial,
     "finding_key": finding_key,
@@ -228,7 +251,18 @@ SPEC = {
             "final statics and initial values of file-scope constants are compared bit for bit on 5 argument vectors per function; "
             "C02.vex sends expression functions and statement-level vector assignments to the Lean vector model (tree of "
             "Model.GenMslVec == exporter's tree, Lean VIr.eval == Rust IR evaluation, Lean VMsl.eval == VIr.eval under the "
-            "theorems' hypotheses)",
+            "theorems' hypotheses). Operand repetition (harness/src/c02/vgend.rs, programs 1000000.. of the C02.vfn stream + stream C02.dup): "
+            "the exporter writes a cast to a struct `(S)value` as `S { v, v, ... }`, the operand once per scalar element; every program "
+            "of this family has an operand with an OBSERVABLE effect (i++ on an inout parameter or a local, a call that bumps a static, an "
+            "assignment, also inside a subscript index below members / swizzles / casts) or its effect-free twin: enumerated — every one "
+            "of 38 operands (7 leaves, 9 effect-free non-leaves, 22 with an effect) below a cast to a one-element and to a four-element "
+            "struct, every compound operator (10 integer, 5 floating) at 5 kinds of target whose index has an effect, 19 further statements "
+            "(scalar -> vector casts, constructors, swizzles of scalars, ++ on elements, swizzled stores, ?:, max/min/clamp/select/abs/dot/"
+            "mul, inout arguments, methods of subscripted objects, matrix from a scalar) x int/uint/float — then random ones over ten struct "
+            "shapes (nested structs, arrays of structs, vector members, mixed element kinds) and five statement positions; the two "
+            "evaluators count effects exactly (final inout arguments, final statics), so an operand written twice is a difference. C02.dup "
+            "sends every struct cast of these modules (type shape + constructor tree of the operand, read off the real ir::Module) to the "
+            "Lean model of the arm and compares its decision and clause counts with the emitted module",
     "level_text": "Proof of the logic of implicit threading: the usage fixpoint loop (modelled with explicit key iteration "
                   "order, explicit unwrap failures and fuel) is proved for every table to terminate within |keys|^2+1 passes "
                   "without panicking, to compute exactly reachability through the local-use relation independently of the "
@@ -270,7 +304,20 @@ SPEC = {
                   "gen_sem_msl_vec_expr through the extended side condition VOk.litOperandOK); "
                   "negation witnesses: the matrix constructor keeps row-major argument order (transposed matrix), "
                   "(float1)v is emitted as an ill-typed (float)v. Matrices, structs, arrays, enums, methods, calls with vector "
-                  "arguments are covered by the correspondence streams only.",
+                  "arguments are covered by the correspondence streams only. Operand repetition (Thm/C02Dup): Gen.MslDupSites lists on "
+                  "every run each explicit copy (.clone() / .cloned() / .to_vec() / vec![x; n] / repeat) in the Metal back end's seven files, "
+                  "each arm that contains one generator call twice and the text-building macros in generate_expression — the only ways an "
+                  "operand can reach the output twice, since syntax-tree values are not Copy; dup_sites_guarded checks the list against a "
+                  "reviewed classification (exactly one site repeats a generated operand: the struct half of the Cast arm), pins how often "
+                  "(get_member_count) and what happens otherwise (UnsupportedCast), and proves the re-extracted side-effect test SOUND: every "
+                  "constructor it accepts is strict and without effect and ALL its expression-typed fields (read off enum ir::Expression) are "
+                  "tested. repeatable_operand_is_pure: for every meaning of calls, operators, ?: and sequences (Spec.MslDup.Interp) an operand "
+                  "accepted by a sound test leaves the store unchanged, so n evaluations give n copies of the one value and the store of one "
+                  "evaluation; struct_cast_meaning_kept: whenever the modelled arm emits n clauses they evaluate to n times the operand's value "
+                  "with the final store of ONE evaluation (also through the one-element branch and for n = 0); repeatable_operand_is_pure_ir: the "
+                  "same on C01's typed IR (Ir.eval) for every World / Prim; index_blind_test_repeats_effect: the test of seeded mutant C02-3 is "
+                  "not sound and S { arr[i++], arr[i++] } differs from one evaluation (negation with witness). The model of the arm is tied to "
+                  "the code by the pinned text and by stream C02.dup (0 disagreements).",
     "trusted_base": [
         "Lean 4.33 kernel; axioms propext / Classical.choice / Quot.sound only (audited by #print axioms)",
         "tools/gens/c02.py (UsageTables): match-arm/field inventory of gather_usage_*, regex shape facts about "
@@ -311,6 +358,19 @@ SPEC = {
         "targets need distinct components; matrices floatCxR = C columns of R, constructor from scalars column-major, from one "
         "scalar diagonal, m[i] a column, M*v the linear-algebra product (Mat section: definitions used by mulMV_toMetal)",
         "the typed vector semantics Spec/SemVec of C01 (VIr.eval / evalTop / typeOf, shared, unchanged)",
+        "tools/gens/c02.py (MslDupSites): the regular expression that finds explicit copies, the innermost-function / innermost-arm "
+        "attribution, the parser of the side-effect test (a flat `match **expr` or a local recursive helper; any other shape is an "
+        "extraction failure = broken obligation), the field types of enum ir::Expression; Thm/C02Dup.reviewed: our reading of what each "
+        "of the 50 copy sites copies (type / name / list, expression made by the back end itself, operand moved into its replacement, "
+        "initialiser per entry wrapper, repeated operand)",
+        "Spec/MslDup.lean: which constructors of ir::Expression are strict and free of effects of their own (leaves, member / element / "
+        "component selection, Cast, Constructor, SizeOf: `strictPure`) — every other constructor is an arbitrary state transformer; Rust: "
+        "a value of a type that is not Copy is used at most once unless explicitly copied",
+        "C++14 aggregate initialisation as read by vmev_expr.rs: brace elision (a sub-aggregate without braces takes as many clauses as "
+        "it has elements, a vector / matrix / scalar one), clauses evaluated left to right, missing clauses value-initialise, a "
+        "narrowing conversion of a clause is ill-formed (float -> int always; int -> float / other integer type unless a constant that "
+        "fits; a literal, a signed literal or a file-scope `constant` is a constant); c01/virev.rs: `(S)x` for a scalar x gives every "
+        "scalar element of S the value x converted to the element's type (HLSL's scalar-to-struct cast; the operand evaluated once)",
         "harness/src/c02/vmev*.rs: an independent Rust implementation of the Metal reading extended to matrices, structs, "
         "arrays, enums, methods, references, aggregates and the metal:: library names (uninterpreted built-ins of c01/vval.rs "
         "under the name of the RSSL built-in they implement; `1 / x` = rcp; select argument order reversed); compared with "
@@ -347,6 +407,10 @@ SPEC = {
         "propagates it); `&&` `||` `?:` have scalar bool conditions (the type checker's own restriction in VIr.typeOf); "
         "assignment targets are vector variables or swizzles with distinct components of variables of vector type; `%=` on "
         "integers only (on floats: known finding). 95% of the generated expression / assignment functions satisfy them",
+        "operand repetition: the theorems speak about the repetition decision and the effect of repeating (store and value of the "
+        "operand); that each clause then initialises its element with the converted value is the Metal reading's business (oracle only; "
+        "where the element kind differs from the operand's in a narrowing direction the emitted list is ill-formed: known finding "
+        "metal-narrowing-conversion-in-braces). Casts from a ConstantBuffer<S> object and to unbounded arrays are outside the subset",
         "vector stream oracle: a method call whose argument writes the object is skipped (C01's typed evaluator copies the "
         "object in and out, C++ and DXC pass `this` by reference: not a difference of the exporter); built-ins whose Metal form "
         "is not a call of one library function (sign on ints, rcp only as `1 / x`) are skipped or read as stated above; initial "
